@@ -15,7 +15,9 @@ RULE = ("random client histories with a transport fault (receive error, send err
 
 ZOO = [b"[]", b"{}", b"", b"   ", b"null", b"1", b"[1]", b"[[]]", b"[{}]", b'{"jsonrpc":"2.0"}', b'[{"id":null,"result":1}]',
        b'[{"id":18446744073709551615,"result":1}]', b'[{"id":18446744073709551614,"result":1}]', b'[{"id":"18446744073709551615","result":1}]',
-       b'[{"id":0,"result":1},{"id":18446744073709551615,"result":1}]', b'[{"id":"x","result":1}]', b'[{"id":"+1","result":1}]',
+       b'[{"id":0,"result":1},{"id":18446744073709551615,"result":1}]', b'[{"id":0,"result":1},{"id":18446744073709551614,"result":1}]',
+       b'[{"id":1,"result":1},{"id":72057594037927936,"result":1}]', b'[{"id":0,"result":1},{"id":1099511627776,"result":1}]',
+       b'[{"id":"0","result":1},{"id":"18446744073709551614","result":1}]', b'[{"id":9223372036854775808,"result":1},{"id":3,"result":1}]', b'[{"id":"x","result":1}]', b'[{"id":"+1","result":1}]',
        b'{"id":1.5,"result":1}', b'{"id":-1,"result":1}', b'{"id":18446744073709551616,"result":1}', b'[{"id":18446744073709551616,"result":1}]',
        b'{"id":0,"result":1,"error":{"code":1,"message":""}}', b'{"id":0}', b"\xff\xfe", b'{"jsonrpc":"2.0","method":"m","params":{"subscription":1,"result":1}}' * 2,
        b"[" * 200 + b"]" * 200, b'{"id":0,"result":' + b"[" * 300 + b"]" * 300 + b"}", b'[{"jsonrpc":"2.0","method":5}]']
